@@ -52,7 +52,204 @@ func (x *Exec) newHash(name string, fn *Term) HashV {
 	return h
 }
 
+// canonElems rewrites each element to the simpler term it is known to be equal to on this path
+// (an assumed or proved equality `simple = compound` of the path condition): congruence of the digest
+// function is then syntactic instead of being left to theory combination over hundreds of arguments.
+func (x *Exec) canonElems(e *Env, ch hchunk) hchunk {
+	if len(ch.elems) < 32 || e.st == nil {
+		return ch
+	}
+	rep := map[*Term]*Term{}
+	simple := func(t *Term) bool { return t.Op == "select" || t.Op == "var" }
+	for _, p := range e.st.pc {
+		if p.Op != "=" || len(p.Args) != 2 {
+			continue
+		}
+		a, b := p.Args[0], p.Args[1]
+		if simple(a) && !simple(b) && b.Op != "const" {
+			if _, ok := rep[b]; !ok {
+				rep[b] = a
+			}
+		} else if simple(b) && !simple(a) && a.Op != "const" {
+			if _, ok := rep[a]; !ok {
+				rep[a] = b
+			}
+		}
+	}
+	if len(rep) == 0 {
+		return ch
+	}
+	memo := map[*Term]*Term{}
+	var rw func(t *Term) *Term
+	rw = func(t *Term) *Term {
+		if r, ok := memo[t]; ok {
+			return r
+		}
+		var res *Term
+		if r, ok := rep[t]; ok {
+			res = r
+		} else if len(t.Args) == 0 || t.Op == "forall" || t.Op == "exists" {
+			res = t
+		} else {
+			args := make([]*Term, len(t.Args))
+			ch := false
+			for i, a := range t.Args {
+				args[i] = rw(a)
+				if args[i] != a {
+					ch = true
+				}
+			}
+			res = t
+			if ch {
+				res = rebuild(t, args)
+				if r, ok := rep[res]; ok {
+					res = r
+				}
+			}
+		}
+		memo[t] = res
+		return res
+	}
+	out := make([]*Term, len(ch.elems))
+	for i, t := range ch.elems {
+		out[i] = rw(t)
+	}
+	return hchunk{elems: out}
+}
+
 func (x *Exec) chunkOf(e *Env, v Value) hchunk {
+	return x.chunkOf0(e, v)
+}
+
+// canonBigApps rewrites, in an obligation, the arguments of every application with many arguments
+// (digest functions over a whole block) to the simpler terms they are known to equal: an equality
+// `simple = compound` that is a top-level assumption lets `compound` be replaced by `simple`.
+// Replacing equals by equals under the same assumptions keeps the obligation equivalent; its purpose
+// is to make congruence of such applications syntactic.
+func canonBigApps(o *Obl) {
+	has := false
+	seenA := map[*Term]bool{}
+	var find func(t *Term)
+	find = func(t *Term) {
+		if seenA[t] || has {
+			return
+		}
+		seenA[t] = true
+		if t.Op == "app" && len(t.Args) >= 32 {
+			has = true
+			return
+		}
+		for _, a := range t.Args {
+			find(a)
+		}
+	}
+	find(o.Goal)
+	for _, p := range o.PC {
+		find(p)
+	}
+	if !has {
+		return
+	}
+	rep := map[*Term]*Term{}
+	simple := func(t *Term) bool { return t.Op == "select" || t.Op == "var" }
+	for _, p := range o.PC {
+		if p.Op != "=" || len(p.Args) != 2 {
+			continue
+		}
+		a, b := p.Args[0], p.Args[1]
+		if simple(a) && !simple(b) && b.Op != "const" {
+			if _, ok := rep[b]; !ok {
+				rep[b] = a
+			}
+		} else if simple(b) && !simple(a) && a.Op != "const" {
+			if _, ok := rep[a]; !ok {
+				rep[a] = b
+			}
+		} else if !simple(a) && !simple(b) && a.Op != "const" && b.Op != "const" && a.S == IntS {
+			// two compound terms known to be equal: the second is rewritten to the first
+			_, ka := rep[a]
+			_, kb := rep[b]
+			if !ka && !kb && a != b {
+				rep[b] = a
+			}
+		}
+	}
+	if len(rep) == 0 {
+		return
+	}
+	memoIn := map[*Term]*Term{} // rewriting inside a big application: every subterm
+	var rwIn func(t *Term) *Term
+	rwIn = func(t *Term) *Term {
+		if r, ok := memoIn[t]; ok {
+			return r
+		}
+		var res *Term
+		if r, ok := rep[t]; ok {
+			res = r
+		} else if len(t.Args) == 0 || t.Op == "forall" || t.Op == "exists" {
+			res = t
+		} else {
+			args := make([]*Term, len(t.Args))
+			ch := false
+			for i, a := range t.Args {
+				args[i] = rwIn(a)
+				if args[i] != a {
+					ch = true
+				}
+			}
+			res = t
+			if ch {
+				res = rebuild(t, args)
+				if r, ok := rep[res]; ok {
+					res = r
+				}
+			}
+		}
+		memoIn[t] = res
+		return res
+	}
+	memoOut := map[*Term]*Term{} // outside: only descend until a big application is met
+	var rwOut func(t *Term) *Term
+	rwOut = func(t *Term) *Term {
+		if r, ok := memoOut[t]; ok {
+			return r
+		}
+		var res *Term
+		switch {
+		case t.Op == "app" && len(t.Args) >= 32:
+			args := make([]*Term, len(t.Args))
+			for i, a := range t.Args {
+				args[i] = rwIn(a)
+			}
+			res = App(t.Name, t.S, args...)
+		case len(t.Args) == 0:
+			res = t
+		case t.Op == "forall" || t.Op == "exists":
+			res = t
+		default:
+			args := make([]*Term, len(t.Args))
+			ch := false
+			for i, a := range t.Args {
+				args[i] = rwOut(a)
+				if args[i] != a {
+					ch = true
+				}
+			}
+			res = t
+			if ch {
+				res = rebuild(t, args)
+			}
+		}
+		memoOut[t] = res
+		return res
+	}
+	for i, p := range o.PC {
+		o.PC[i] = rwOut(p)
+	}
+	o.Goal = rwOut(o.Goal)
+}
+
+func (x *Exec) chunkOf0(e *Env, v Value) hchunk {
 	var s SliceV
 	switch c := v.(type) {
 	case SliceV:
@@ -72,7 +269,7 @@ func (x *Exec) chunkOf(e *Env, v Value) hchunk {
 		if !ok {
 			unsupported("hash of pointer to non-array")
 		}
-		return x.chunkOf(e, cell)
+		return x.chunkOf0(e, cell)
 	default:
 		unsupported("%s: cannot hash a %T", e.where, v)
 	}
